@@ -5,7 +5,8 @@ proofs : lean/PyAbel/Props/C17.lean (daun degree-0 matrix = onion-peeling W, tri
          Tikhonov at strength 0 = inverse, NNLS = unconstrained when feasible) and Props/C17Wrappers.lean
          (argument routing of every wrapper-shaped function, decided over a table regenerated from /repo)
 K      : gen_wrappers translator (regenerates Gen/Wrappers.lean → theorem re-decided); Lean matrices vs implementation
-S      : the equivalences themselves on random half-images / images; wrappers called with distinct non-default values
+S      : the equivalences themselves on random half-images / images; wrappers called with distinct non-default values;
+         Transform.angular_integration = angular_integration_3D of its own transform, call after call
 """
 import json
 import subprocess
